@@ -52,7 +52,11 @@ def run_variant(v):
         ctx = Ctx(prop, program, v.get("tier", "quick"), 0)
         buf = io.StringIO()
         with contextlib.redirect_stdout(buf):
-            mod.run(ctx)
+            try:
+                mod.run(ctx)
+            except AnalysisError:
+                if not ctx.findings:
+                    raise
     except AnalysisError as e:
         res = ("analysis-error", str(e))
     except SyntaxError as e:
@@ -64,6 +68,8 @@ def run_variant(v):
         known = load_known(prop)
         new = [f for f in ctx.findings if f.key not in known]
         res = ("findings", new)
+    if res[0] == "analysis-error" and 'ctx' in dir() and ctx.findings:
+        res = ("findings", [f for f in ctx.findings if f.key not in load_known(prop)])
     expect = v.get("expect")
     kind, payload = res
     if expect is None:  # neutral variant: must stay silent
